@@ -147,6 +147,7 @@ class Tools:
             kv = dict(x.split('=') for x in ms.split())
             r['ms_ret'], r['ms_args'] = kv['ret'], kv['args'].split(';')
             r['wf'] = kv.get('wf')
+            r['straddle'], r['gccarg'] = kv.get('straddle'), kv.get('gccarg')
             res.append(r)
         return res
 
@@ -212,6 +213,38 @@ def has_union_unnamed_bf(t):
     return False
 
 
+def py_align(t):
+    """natural alignment (unnamed bit-fields do not count)"""
+    k = t[0]
+    if k == 'b':
+        return G.KSIZE[t[1]]
+    if k == 'p':
+        return 8
+    if k == 'e':
+        return G.ENUM_SIZE[t[1]]
+    if k == 'a':
+        return py_align(t[2])
+    if k == 'x':
+        return py_align(t[1])
+    return max([1] + [py_align(m[1]) for m in t[1] if m[0] in 'no'] + [py_align(m[2]) for m in t[1] if m[0] == 'f'])
+
+
+def has_underaligned_fullwidth_unnamed_bf(t):
+    """gcc turns an unnamed bit-field as wide as its type into an ordinary member of that type without raising the
+    struct's alignment; when the struct then sits at an offset that is not a multiple of the type's size, gcc's
+    classify_argument sees a misaligned scalar and answers MEMORY (`struct { int a : 1; struct { short : 16; } s; }`;
+    clang: INTEGER, as c2m).  An artefact of gcc's representation, like has_union_unnamed_bf: not compared."""
+    for x in G.walk_types(t):
+        if x[0] in 'su':
+            a = py_align(x)
+            for m in x[1]:
+                if m[0] == 'g' and m[1] > 0 and m[2][0] == 'b' and m[1] == 8 * G.KSIZE[m[2][1]] and G.KSIZE[m[2][1]] > a:
+                    return True
+                if m[0] == 'g' and m[1] > 0 and m[2][0] == 'e' and m[1] == 8 * G.ENUM_SIZE[m[2][1]] and G.ENUM_SIZE[m[2][1]] > a:
+                    return True
+    return False
+
+
 def ret_same(gcc, other):
     """gcc's observed return letters vs a prediction; a lower-case letter (padding-only eightbyte, nothing
     observable in the return registers) matches anything"""
@@ -227,6 +260,21 @@ def kverdict(t, r):
         return 'padding-eightbyte'      # an eightbyte of nothing but padding: known c2m deviation
     if has_union_unnamed_bf(t):
         return 'gcc-union-unnamed-bf'   # gcc deviates from the psABI text; not compared
+    if has_underaligned_fullwidth_unnamed_bf(t):
+        return 'gcc-fullwidth-unnamed-bf'   # likewise
+    if r.get('straddle') == '1':
+        # an unnamed bit-field touching two eightbytes (coq/C08/SpanClassify.v): gcc must follow sysv_classify_g;
+        # c2m either equals gcc (tree with fixes/C08-9: its Coq model, which is the audited code, is not compared
+        # here) or - TEMPORARY exact filter until that patch is in /repo - classifies by the first eightbyte only,
+        # exactly as its model says (theorem classify_eq_gcc_refuted)
+        if r['gcc_arg'].upper() != r['gccarg'].upper():
+            return 'model-sysv'
+        c2m_arg = first(blk_letters(r['c2m_args'][0]))
+        if c2m_arg == r['gcc_arg'].upper() and ret_same(r['gcc_ret'], r['c2m_ret']):
+            return 'ok-straddle-fixed'
+        if c2m_arg == first(r['ms_args'][0]).upper() and r['c2m_args'] == r['mc_args'] and r['c2m_ret'] == r['mc_ret']:
+            return 'known-straddling-unnamed-bf'
+        return 'abi-mismatch'
     if first(blk_letters(r['c2m_args'][0])) != r['gcc_arg'].upper() or not ret_same(r['gcc_ret'], r['c2m_ret']):
         return 'abi-mismatch'
     if r['c2m_ret'] != r['mc_ret'] or r['c2m_args'] != r['mc_args']:
@@ -433,7 +481,7 @@ def classify_part(chk, tools, decls, label):
         chk.dist('mixed_signature', r.get('mix', '?'))
         chk.dist('arg_class(gcc)', (r['gcc_arg'] or '?').upper())
         chk.dist('ret_class(gcc)', (r['gcc_ret'] or '?').upper())
-        if v not in ('ok', 'padding-eightbyte', 'gcc-union-unnamed-bf'):
+        if v not in ('ok', 'padding-eightbyte', 'gcc-union-unnamed-bf', 'gcc-fullwidth-unnamed-bf', 'ok-straddle-fixed', 'known-straddling-unnamed-bf'):
             bad.setdefault(v, []).append((t, r))
     chk.log('%s: %d declarations, verdicts %s' % (label, len(decls), {k: len(v) for k, v in bad.items()} or 'all ok'))
     seen = set()
@@ -516,6 +564,10 @@ def passing_part(chk, tools, decls, label, modes=('-ei', '-eg')):
             chk.dist('passing_excluded', 'padding-eightbyte')
         elif has_union_unnamed_bf(t):
             chk.dist('passing_excluded', 'gcc-union-unnamed-bf')
+        elif has_underaligned_fullwidth_unnamed_bf(t):
+            chk.dist('passing_excluded', 'gcc-fullwidth-unnamed-bf')
+        elif m.get('straddle') == '1' and not STRADDLE_FIXED:
+            chk.dist('passing_excluded', 'straddling-unnamed-bf (fixes/C08-9.patch not applied)')
         else:
             use.append(t)
     # a 16-byte aligned aggregate passed in memory needs an even number of stack words before it (known
@@ -612,6 +664,27 @@ def gnuext_part(chk, tools, n):
                     'c2m and gcc lay out a declaration with zero-size members (GNU C) differently: %s  c2m[%s] gcc[%s]' % (txt, rr[0]['c2m'], rr[0]['gcc']))
 
 
+# an unnamed bit-field touching two eightbytes: gcc classifies both INTEGER, the audited c2m only the first
+# (theorem classify_eq_gcc_refuted, fixes/C08-9.patch).  The witness is classified on every run; while it shows
+# exactly that deviation, declarations with such a bit-field are kept out of the run-time passing streams.
+STRADDLE_WITNESS = 's{ n bint ; n s{ n bchar ; g40 blong } ; n bfloat }'
+STRADDLE_FIXED = []
+
+
+def straddle_witness(chk, tools):
+    t = G.parse_text(STRADDLE_WITNESS)
+    r = tools.classify([t])[0]
+    v = kverdict(t, r)
+    chk.count('K ' + STRADDLE_WITNESS)
+    chk.dist('straddling_unnamed_bitfield_witness', v)
+    if v == 'ok-straddle-fixed':
+        STRADDLE_FIXED.append(True)
+    elif v != 'known-straddling-unnamed-bf':
+        chk.finding('classify:' + STRADDLE_WITNESS, dict(kind='classify', decl=STRADDLE_WITNESS, **r),
+                    'c2m and gcc pass %s differently and not in the way the Coq model of the audited code predicts: %s' % (STRADDLE_WITNESS, v))
+    chk.log('straddling unnamed bit-field witness: %s' % v)
+
+
 def libc_part(chk, tools):
     """harness/c08_libc.c under c2m (-ei, -eg) and gcc: identical output lines"""
     src = os.path.join(vlib.VERIF, 'harness', 'c08_libc.c')
@@ -684,6 +757,7 @@ def run(chk):
             DEFERRED.append(('tie:model-c2m-sign', dict(kind='layout', decl='s{ f2 eint ; f7 eneg8 }', versions=sorted(SIGN_VERSIONS)),
                              'c2m follows neither version of c2m_bf_signed consistently (with / without fixes/C08-7) on enum bit-fields'))
         padding_witness(chk, tools)
+        straddle_witness(chk, tools)
         align16_witness(chk, tools)
         pcorpus = load_corpus('c08_pass.txt')
         if pcorpus:
@@ -759,7 +833,7 @@ def replay(chk, path):
                 print('%-8s: %s' % (k, r[k]))
             v = kverdict(t, r)
             print('verdict:', v)
-            return 0 if v == 'ok' else 1
+            return 0 if v in ('ok', 'ok-straddle-fixed') else 1
         if rp.get('kind') == 'gnuext':
             t = G.parse_text(rp['decl'])
             res, info = tools.layout([t])
